@@ -182,7 +182,7 @@ def main(chk):
     for cid in range(1, ndoc + 1):
         level = rng.choice([0, 1, 2])
         d, text, meta = gen_mei.make_doc(rng, chords=level >= 1, ties=rng.choice(["attr", "elements"]) if level >= 1 else "", grace=level >= 2,
-                                         tuplets=level >= 1, meter_change=level >= 1, mrest=level >= 1)
+                                         tuplets=level >= 1, meter_change=level >= 1, mrest=level >= 1, repeats=level >= 1)
         d["cid"] = cid
         mdocs.append(d)
         mctx[cid] = (text, meta, level)
@@ -204,7 +204,7 @@ def main(chk):
             return
         for j in uniq(r.json_lines()):
             den[j["cid"]] = j
-    mfeats = {"meter_change": 0, "grace": 0, "ties": 0, "chords": 0, "tuplets": 0, "mrest": 0, "attributes_as_children": 0, "double_dots": 0}
+    mfeats = {"repeat": 0, "ending": 0, "meter_change": 0, "grace": 0, "ties": 0, "chords": 0, "tuplets": 0, "mrest": 0, "attributes_as_children": 0, "double_dots": 0}
     for cid in range(1, ndoc + 1):
         text, meta, level = mctx[cid]
         out = den.get(cid)
@@ -217,6 +217,8 @@ def main(chk):
             continue
         chk.nontrivial(("mei", cid))
         mfeats["meter_change"] += meta["meter_change"]
+        mfeats["repeat"] += meta["repeat"]
+        mfeats["ending"] += meta["ending"]
         mfeats["attributes_as_children"] += meta["as_children"]
         mfeats["grace"] += "grace=" in text
         mfeats["ties"] += "tie" in text
@@ -272,6 +274,14 @@ def main(chk):
             if got_m != exp_m:
                 report("measures", {"part": p.id, "expected": [tuple(map(str, x)) for x in exp_m], "got": [tuple(map(str, x)) for x in got_m]})
                 break
+            exp_rep = sorted((fr(r["from"]), fr(r["to"])) for r in out["repeats"])
+            got_rep = sorted((Fraction(r.start.t, divs), Fraction(r.end.t, divs)) for r in p.iter_all(score.Repeat))
+            if exp_rep != got_rep:
+                report("repeats", {"part": p.id, "expected": [tuple(map(str, x)) for x in exp_rep], "got": [tuple(map(str, x)) for x in got_rep]})
+            exp_end = sorted((str(e["n"]), fr(e["from"]), fr(e["to"])) for e in out["endings"])
+            got_end = sorted((str(e.number), Fraction(e.start.t, divs), Fraction(e.end.t, divs)) for e in p.iter_all(score.Ending))
+            if exp_end != got_end:
+                report("endings", {"part": p.id, "expected": [tuple(map(str, x)) for x in exp_end], "got": [tuple(map(str, x)) for x in got_end]})
             staff_n = sorted(set(n.staff for n in p.notes_tied) | set(r.staff for r in p.iter_all(score.Rest)))
             if len(staff_n) != 1:
                 continue
